@@ -322,6 +322,17 @@ func randType(r *Rng, depth int, c typeGenCfg) *tyNode {
 	case k < 5:
 		return &tyNode{Kind: "prim", Prim: primKinds[r.Intn(len(primKinds))]}
 	case k == 5:
+		if r.P(1, 3) { // a pointer to a collection: its nil-ness and the collection's are two things
+			e := &tyNode{Kind: "slice", Elem: randType(r, depth+2, c)}
+			if r.Bool() {
+				me := randType(r, depth+2, c)
+				if me.Kind == "array" {
+					me = &tyNode{Kind: "slice", Elem: me.Elem}
+				}
+				e = &tyNode{Kind: "map", Elem: me}
+			}
+			return &tyNode{Kind: "ptr", Elem: e}
+		}
 		return &tyNode{Kind: "ptr", Elem: randType(r, depth+1, c)}
 	case k == 6 || k == 7:
 		return &tyNode{Kind: "slice", Elem: randType(r, depth+1, c)}
@@ -497,7 +508,11 @@ func randGoValue(r *Rng, t *tyNode, pz int) reflect.Value {
 		return randPrimValue(r, t.Prim)
 	case "ptr":
 		p := reflect.New(t.Elem.goType())
-		p.Elem().Set(randGoValue(r, t.Elem, pz))
+		if (t.Elem.Kind == "slice" || t.Elem.Kind == "map") && r.P(1, 3) {
+			// a non-nil pointer to a nil collection
+		} else {
+			p.Elem().Set(randGoValue(r, t.Elem, pz))
+		}
 		v.Set(p)
 	case "slice":
 		n := r.Intn(4)
